@@ -29,11 +29,37 @@ function corpusFiles(limit) {
 const T_ITEMS = Object.keys(H.T).map((t) => ({ t }));
 const TS_MIX = T_ITEMS.concat(G.CORE.filter((it) => !(it.d && ['importFragmentAlias'].includes(it.d))));
 
+// JSX-free TypeScript modules whose `defineComponent` is not Vue's: nothing in them may change, whatever resolveType says
+const FOREIGN_FROM = ['vue-demi', 'vuex', 'vuetify/lib', 'vue-router', './vue', '@vue/runtime-core', 'Vue', 'other-lib'];
+const FOREIGN_IMPORT = {
+  named: (m) => `import { defineComponent } from '${m}';`,
+  withVueTypes: (m) => `import type { SetupContext } from 'vue';\nimport { defineComponent } from '${m}';`,
+  afterVueValue: (m) => `import { ref, h } from 'vue';\nimport { defineComponent } from '${m}';`,
+  beforeVueValue: (m) => `import { defineComponent } from '${m}';\nimport { ref, h } from 'vue';`,
+  aliasedVueNextToIt: (m) => `import { defineComponent as vueDc } from 'vue';\nimport { defineComponent } from '${m}';`,
+  defaultImport: (m) => `import defineComponent from '${m}';`,
+};
+const FOREIGN_BODY = {
+  constTyped: 'const Comp = defineComponent((p: { msg: string }) => {});',
+  exportDefaultCtx: "export default defineComponent((p: { n?: number }, ctx: SetupContext<{ close(): void }>) => {}, opts);\ndeclare const opts: any;",
+  bareIface: 'interface P { a: string }\ndefineComponent((props: P) => () => null, { inheritAttrs: false });',
+  defaulted: "export const D = defineComponent((props: { a?: string } = { a: 'z' }) => null);",
+};
+function foreignSrc(c) { return `${FOREIGN_IMPORT[c.imp](c.from)}\n${FOREIGN_BODY[c.body]}\n`; }
+
 function optsOf(c) { return JSON.stringify({ transformOn: true, optimize: !!c.o.optimize, enableObjectSlots: c.o.eos !== false, resolveType: !!c.o.resolveType }); }
-function requests(c) { if (c.file) { let src = ''; try { src = fs.readFileSync(c.file, 'utf8'); } catch (e) {} return [{ src, want: ['frame', 'ident_in'], opts: JSON.stringify({ optimize: true, resolveType: true, transformOn: true }) }]; } return [{ src: H.renderHistory(c.items, !!c.ts), ts: !!c.ts, want: ['frame', 'second', 'ident_in'], opts: optsOf(c) }]; }
+function requests(c) { if (c.foreign) return [{ src: foreignSrc(c), ts: true, want: ['frame', 'ident_in'], opts: JSON.stringify({ resolveType: true, optimize: !!c.o.optimize, transformOn: true }) }]; if (c.file) { let src = ''; try { src = fs.readFileSync(c.file, 'utf8'); } catch (e) {} return [{ src, want: ['frame', 'ident_in'], opts: JSON.stringify({ optimize: true, resolveType: true, transformOn: true }) }]; } return [{ src: H.renderHistory(c.items, !!c.ts), ts: !!c.ts, want: ['frame', 'second', 'ident_in'], opts: optsOf(c) }]; }
 
 function judge(c, resps) {
   const r = resps[0];
+  if (c.foreign) {
+    if (r.parse_error) return { engineError: 'generated module does not parse: ' + r.parse_error + ' :: ' + foreignSrc(c) };
+    if (r.panic || r.died || r.hang || r.printed === undefined) return { skip: true };
+    const v = [];
+    if (!r.frame || !r.frame.ok) v.push({ clause: 'frame', diff: 'frame:different', msg: "a module without JSX whose defineComponent is not Vue's was changed", expected: r.frame && r.frame.in, observed: r.frame && r.frame.out });
+    if (typeof r.ident_in !== 'string' || r.printed !== r.ident_in) v.push({ clause: 'jsx-free-unchanged', diff: 'printed:different', msg: "a module without JSX whose defineComponent is not Vue's is not returned unchanged", expected: r.ident_in, observed: r.printed });
+    return { viol: v, obs: hash(r.printed), clauses: ['frame', 'jsx-free-unchanged'] };
+  }
   if (c.file) {
     if (r.parse_error || r.panic || r.died || r.hang || r.printed === undefined) return { skip: true }; // scripts / non-module syntax: outside the quantifier
     const v = [];
@@ -87,6 +113,11 @@ function spaces(tier) {
     },
   });
   sp.push({
+    name: 'F:foreign-defineComponent',
+    bounds: { from: FOREIGN_FROM, import_forms: Object.keys(FOREIGN_IMPORT), bodies: Object.keys(FOREIGN_BODY), options: 'resolveType=true × optimize' },
+    *gen() { for (const from of FOREIGN_FROM) for (const imp of Object.keys(FOREIGN_IMPORT)) for (const body of Object.keys(FOREIGN_BODY)) for (const optimize of [false, true]) yield { foreign: true, from, imp, body, items: [], o: { optimize } }; },
+  });
+  sp.push({
     name: 'W:real-world-jsx-free-corpus',
     bounds: { root: CORPUS_ROOT, files: thorough ? 'all *.js/*.mjs/*.cjs < 64 KiB' : 'the first 400 in sorted walk order', note: 'files the SWC parser does not accept as a module are skipped; thorough: the fixed corpus is enumerated completely; quick: a deterministic prefix of it (labelled: a subset, supplementary to the generated histories)' },
     *gen() { for (const file of corpusFiles(thorough ? 1e9 : 400)) yield { file, items: [], o: {} }; },
@@ -95,6 +126,7 @@ function spaces(tier) {
 }
 
 function* shrink(c) {
+  if (c.foreign) { if (c.imp !== 'named') yield Object.assign({}, c, { imp: 'named' }); if (c.body !== 'constTyped') yield Object.assign({}, c, { body: 'constTyped' }); if (c.o.optimize) yield Object.assign({}, c, { o: { optimize: false } }); return; }
   if (c.file) return;
   for (const items of G.shrinkItems(c.items)) if (items.length && (!c.ts || items.every((it) => it.t || it.d || it.k))) yield Object.assign({}, c, { items });
   if (c.o.optimize) yield Object.assign({}, c, { o: Object.assign({}, c.o, { optimize: false }) });
@@ -108,6 +140,6 @@ module.exports = {
   rule: 'explicit-state BFS over module-item histories (JSX embedded in assignments, arrows incl. async/typed/generic, classes, loops, try/catch, labelled blocks, switch, default parameters; JSX-free distractors; TS declarations and defineComponent calls in .tsx histories) × option vectors; for every state the driver compares the visitor\'s raw output AST with the input AST after erasing (input) outermost JSX expressions and (output) generated-span expression subtrees, generated import/let/const/function items, arrow bodies folded back, and - under resolveType - generated options of calls to vue\'s defineComponent: the two must be equal span-insensitively (order-sensitive); JSX-free states must print byte-identically to the identity pipeline; and the transform applied to its own printed output must equal the identity pipeline on that output. Distinct = distinct printed outputs.',
   assumptions: ['span criterion for "generated" (DUMMY_SP / reserved dummy range)', 'swc eq_ignore_span', 'identity pipeline = parse → resolver → hygiene → fixer → codegen without the visitor'],
   spaces, requests, judge, shrink,
-  caseKey: (c) => (c.file ? 'W:' + c.file : G.key(c.items)) + ` {${c.ts ? 'tsx ' : ''}${Object.keys(c.o).filter((k) => c.o[k] !== undefined).map((k) => k + '=' + c.o[k]).join(',')}}`,
+  caseKey: (c) => (c.foreign ? `F:${c.imp} from '${c.from}' ; ${c.body}` : c.file ? 'W:' + c.file : G.key(c.items)) + ` {${c.ts ? 'tsx ' : ''}${Object.keys(c.o).filter((k) => c.o[k] !== undefined).map((k) => k + '=' + c.o[k]).join(',')}}`,
   depth: (c) => c.items.length,
 };
